@@ -107,6 +107,8 @@ def _rules_core(repo, tier):
                 d.add(Finding('C01.DT', f, 'group type %sType defines an Exp that does not raise' % G, construct='group Exp'))
     out.append(d)
     out.append(rule_wsign(repo, tier))
+    from ..limits import rule_limit
+    out.append(rule_limit(repo, 'C01.LIMIT', EXP_TARGETS, floor=16, decided_floor=16))
     out.append(rule_dtype(repo, 'C01.DTYPE', EXP_TARGETS + [(OP, 'se3_Exp.forward'), (OP, 'sim3_Exp.forward'), (OP, 'rxso3_Exp.forward')], floor=7))
     return out
 
@@ -126,4 +128,4 @@ def rules(repo, tier):
                                                       'before it is complete - a later call with the same object and other contents must not be answered from it',
                                                       ['pypose.lietensor.lietensor', 'pypose.lietensor.operation', 'pypose.lietensor.basics', 'pypose.lietensor.utils'], floor=3),
             rule_optional(repo, 'C01.OPT', ['pypose.lietensor.lietensor', 'pypose.lietensor.operation', 'pypose.lietensor.basics', 'pypose.lietensor.utils'])] + mode_rules(repo, 'C01', ['pypose.lietensor.lietensor', 'pypose.lietensor.operation', 'pypose.lietensor.basics', 'pypose.lietensor.utils']) + [rule_callsig(repo, 'C01.SIG', ['pypose.lietensor.lietensor', 'pypose.lietensor.operation', 'pypose.lietensor.basics', 'pypose.lietensor.utils']), rule_docsig(repo, 'C01.DOC', ['pypose.lietensor.lietensor', 'pypose.lietensor.operation', 'pypose.lietensor.basics', 'pypose.lietensor.utils'])] + [
-            rule_axisdefault(repo, 'C01.AXDEF', ['pypose.lietensor.lietensor', 'pypose.lietensor.operation', 'pypose.lietensor.basics', 'pypose.lietensor.utils', 'pypose.lietensor.convert', 'pypose.basics.ops'])]
+            rule_axisdefault(repo, 'C01.AXDEF', ['pypose.lietensor.lietensor', 'pypose.lietensor.operation', 'pypose.lietensor.basics', 'pypose.lietensor.utils', 'pypose.lietensor.convert', 'pypose.basics.ops']), __import__('sa.axisdefault', fromlist=['x']).rule_frontaxis(repo, 'C01.BAX', ['pypose.lietensor.lietensor', 'pypose.lietensor.operation', 'pypose.lietensor.basics', 'pypose.lietensor.utils', 'pypose.lietensor.convert'])]
